@@ -196,7 +196,7 @@ def WFbag(st, bag, n, radii_tok, thr_tok, W):
         ("clusters.in-range", z3.ForAll([c, a], z3.Implies(z3.And(bag[c], S(st, c)[a]), z3.And(a >= 0, a < n.t)))),
         ("clusters.duplicate-free", z3.ForAll([c], z3.Implies(bag[c], DUP(st, c)))),
         ("clusters.species-cover-every-atom", z3.ForAll([c, a], z3.Implies(z3.And(bag[c], S(st, c)[a]), SPEC(st, c)[ZF(a)]))),
-        ("clusters.non-empty", z3.ForAll([c], z3.Implies(bag[c], z3.Exists([x], S(st, c)[x])))),
+        ("clusters.non-empty", z3.ForAll([c], z3.Implies(bag[c], S(st, c) != empty_set()))),
         ("clusters.cache-empty", z3.ForAll([c], z3.Implies(bag[c], CACHE_NONE(st, c)))),
         ("clusters.carry-the-clustering-radii-and-threshold", z3.ForAll([c], z3.Implies(bag[c], z3.And(TOK(st, "_radii", c) == radii_tok, TOK(st, "_bond_threshold", c) == thr_tok)))),
         ("clusters.allocated-before-the-watermark", z3.ForAll([c], z3.Implies(bag[c], c < W))),
@@ -333,7 +333,7 @@ def clean_contract(it, st, bound, site):
     x = z3.Int("x!cl")
     st.assume(z3.ForAll([c], z3.Implies(o[c], bag[c])))
     st.assume(z3.ForAll([c, a], z3.Implies(S(st, c)[a], S(st, c, H0)[a])))
-    st.assume(z3.ForAll([c], z3.Implies(o[c], z3.And(z3.Exists([x], S(st, c)[x]), DUP(st, c), COMP(S(st, c), S(st, c, H0)),
+    st.assume(z3.ForAll([c], z3.Implies(o[c], z3.And(S(st, c) != empty_set(), DUP(st, c), COMP(S(st, c), S(st, c, H0)),
                                                      z3.Or(CACHE_NONE(st, c), CACHE_SET(st, c) == S(st, c))))))
     st.ghost["clean_H0"] = H0
     return out
@@ -367,7 +367,7 @@ def post(st, ctx, r):
     st.prove("input-untouched", z3.BoolVal(sysm.mutations == []))
     st.prove("rng-seeded-with-the-given-seed", z3.BoolVal(st.ghost.get("rng_seed") is ctx["seed"]))
     st.prove("result.in-range", z3.ForAll([c, a], z3.Implies(z3.And(o[c], S(st, c)[a]), z3.And(a >= 0, a < n.t))))
-    st.prove("result.non-empty", z3.ForAll([c], z3.Implies(o[c], z3.Exists([x], S(st, c)[x]))))
+    st.prove("result.non-empty", z3.ForAll([c], z3.Implies(o[c], S(st, c) != empty_set())))
     st.prove("result.duplicate-free", z3.ForAll([c], z3.Implies(o[c], DUP(st, c))))
     st.prove("result.pairwise-disjoint", z3.ForAll([a, c1, c2], z3.Implies(z3.And(o[c1], o[c2], c1 != c2), z3.Not(z3.And(S(st, c1)[a], S(st, c2)[a])))))
     st.prove("result.species-cover-every-atom", z3.ForAll([c, a], z3.Implies(z3.And(o[c], S(st, c)[a]), SPEC(st, c)[ZF(a)])))
